@@ -203,12 +203,21 @@ def variant_facts(edits, base_fdir, root=None):
         raise BuildFailed("no recorded library invocation in " + base_fdir)
     sc = make_scratch(root)
     try:
-        for rel, old, new in edits:
+        for e in edits:
+            rel, old, new = e[0], e[1], e[2]
+            nth = e[3] if len(e) > 3 else None
             p = os.path.join(sc, rel)
             s = open(p).read()
-            if s.count(old) != 1:
-                raise KeyError("edit does not apply exactly once in %s (%d matches)" % (rel, s.count(old)))
-            open(p, "w").write(s.replace(old, new))
+            if nth is None:
+                if s.count(old) != 1:
+                    raise KeyError("edit does not apply exactly once in %s (%d matches)" % (rel, s.count(old)))
+                s = s.replace(old, new)
+            else:
+                parts = s.split(old)
+                if len(parts) - 1 != e[4] if len(e) > 4 else len(parts) - 1 <= nth:
+                    raise KeyError("edit expects occurrence %d of %s in %s (%d matches)" % (nth, old[:30], rel, len(parts) - 1))
+                s = old.join(parts[:nth + 1]) + new + old.join(parts[nth + 1:])
+            open(p, "w").write(s)
         out = os.path.join(sc, "_facts")
         os.makedirs(out)
         argv = list(inv["argv"])
